@@ -5,13 +5,14 @@ from .. import lifecycle_common as L
 
 ID = 'C18'
 MODULES = ['OFModel.Lifecycle', 'OFModel.Lineage']
+PROP_FILES = ['C18', 'C18Reuse']
 RULE = ('real OpenFilterLineage(client=capturing fake) as Filter.emitter on the real Filter.run of scripted filters: every way a run can end '
         '(exit() / exit(exc) incl. exit(reason, SystemExit(1)) / exception / KeyboardInterrupt / stop event / obeyed or ignored exit message at init, setup, recv/process/send of iteration k, '
         'shutdown, fini; failing constructor, MQ, send_exit_msg; exit_after; script exhaustion) x policies x heartbeat schedules: the heartbeat '
         'thread is gated so that it takes exactly sched[i] steps before the i-th emitter call of the main thread (run length vs heartbeat '
         'interval = the schedule), plus runs with a free-running 1 ms heartbeat thread (compared modulo the number of RUNNING events). '
-        'non-trivial = START was emitted')
-ASSUMPTIONS = ['one emitter object per run (the run id is created with the OpenFilterLineage object; two runs in one process sharing Filter.emitter share the id)',
+        'Plus sequences of 2-3 runs on ONE shared emitter object. non-trivial = START was emitted')
+ASSUMPTIONS = ['several runs of one process share the emitter object (Filter.emitter is a class attribute) and therefore its run id; C18_reused_emitter proves that from any between-runs state a run emits the history it emits on a fresh object, and sequences of 2-3 runs on one real object are compared run by run with the model',
                '"ended cleanly" is read as: Filter.run returned normally (C08: returns for clean exits, raises for errors); a stop event (signal) and an obeyed, eaten propagated error therefore end in COMPLETE; anything leaving run() - an Exception, a KeyboardInterrupt, exit(reason, SystemExit(n)) - in ABORT',
                'a run whose constructor fails, or whose subclass init() fails before Filter.init() is reached, emits nothing (no START): stated boundary',
                'heartbeat steps are atomic with respect to emit_stop - no longer assumed: probed on the real class on every run (atomic_probe parks the heartbeat thread inside its step at three points while the owner ends the run, 12 probes); a killed process emits nothing',
@@ -96,6 +97,21 @@ def run_impl(case):
     ev = list(cap.ev)
     return {'events': [t for t, _ in ev], 'rids': len({r for _, r in ev}), 'ops': ops, 'returns': o['outcome'] == 'returns', 'outcome': o['outcome'],
             'log': o['log'], 'fired': o['fired']}
+
+
+def run_multi(cases):
+    """several runs in one process: `Filter.emitter` is a class attribute, so they share ONE OpenFilterLineage object (its flags,
+    stop event and run id survive from run to run).  Heartbeat schedule all zeros.  -> one observation per run"""
+    em, cap, ops, drain = make_emitter([0] * 400)
+    out = []
+    for case in cases:
+        n0, k0 = len(cap.ev), len(ops)
+        o = L.run_impl(case, emitter=em)
+        drain()
+        ev = cap.ev[n0:]
+        out.append({'events': [t for t, _ in ev], 'rids': len({r for _, r in ev}), 'ops': ops[k0:], 'returns': o['outcome'] == 'returns', 'outcome': o['outcome'],
+                    'log': o['log'], 'fired': o['fired']})
+    return out
 
 
 def ending(case, o):
@@ -225,9 +241,9 @@ def run(ctx):
     logging.disable(logging.CRITICAL)
     res, rng = ctx.result, ctx.rng
     if ctx.replay:
-        cases = [ctx.replay['case']] if ctx.replay.get('case') and 'probe' not in ctx.replay['case'] else []
+        cases = [ctx.replay['case']] if ctx.replay.get('case') and 'probe' not in ctx.replay['case'] and 'multi' not in ctx.replay['case'] else []
     else:
-        cases = [c['case'] if 'case' in c else c for c in ctx.corpus if 'probe' not in (c.get('case') or c)] + gen_cases(rng, 16 if ctx.thorough else 4 if ctx.escalate else 1)
+        cases = [c['case'] if 'case' in c else c for c in ctx.corpus if 'probe' not in (c.get('case') or c) and 'multi' not in (c.get('case') or c)] + gen_cases(rng, 16 if ctx.thorough else 4 if ctx.escalate else 1)
     impl = [run_impl(c) for c in cases]
     model = None
     if ctx.driver:
@@ -251,6 +267,28 @@ def run(ctx):
                 mi, mm = {'events': o['events'], 'ops': o['ops'], 'returns': o['returns']}, {'events': m['events'], 'ops': m['ops'], 'returns': m['returns']}; ok = mi == mm
             if ok: res.traces_validated += 1
             elif not viol: res.disagreements.append({'point': 'c18.history', 'case': c, 'impl': mi, 'model': mm if mm is not None else m})
+    # several runs of one process share the emitter object (C18Reuse.lean: C18_reused_emitter)
+    if not ctx.replay or ctx.replay.get('case', {}).get('multi'):
+        if ctx.replay: groups = [ctx.replay['case']['multi']]
+        else:
+            singles = [c for c in cases if c.get('sched') is not None and not c['script'].get('mq_raises')]
+            groups = [[dict(rng.choice(singles), sched=[0] * 6) for _ in range(rng.choice([2, 2, 3]))] for _ in range(60 if not ctx.thorough else 600)] if singles else []
+        nmulti = 0
+        for g in groups:
+            obs = run_multi(g)
+            mm = ctx.driver.batch([L.driver_req(c, 'c18.history', sched=[0] * 6) for c in g]) if ctx.driver else None
+            for j, (c, o) in enumerate(zip(g, obs)):
+                nmulti += 1
+                res.note({'multi_run': j, 'script': c['script'], 'prop': c['prop'], 'obey': c['obey']}, bool(o['events']) and j > 0)
+                viol = oracle(c, o)
+                for key, what in viol[:1]:
+                    res.violations.append(Violation(f'run{min(j + 1, 2)}-of-process:' + key, f'run {j + 1} on the shared emitter object: {what}', {'multi': g[:j + 1]}))
+                if mm is not None and not viol:
+                    m = mm[j]
+                    if 'err' in m or (m['events'], m['returns']) != (o['events'], o['returns']):
+                        res.disagreements.append({'point': 'c18.history (re-used emitter)', 'case': {'multi': g[:j + 1]}, 'impl': {'events': o['events'], 'returns': o['returns']}, 'model': m})
+                    else: res.traces_validated += 1
+        res.extra['runs_on_shared_emitter'] = nmulti
     # atomicity of a heartbeat step with respect to the end of the run (the assumption behind the model's interleaving)
     probes = {}
     if ctx.replay and ctx.replay.get('case', {}).get('probe'): plist = [ctx.replay['case']['probe']]
